@@ -14,7 +14,6 @@ import (
 	"net/http"
 	"net/http/httptest"
 	"net/url"
-	"strconv"
 	"time"
 
 	"github.com/google/pprof/internal/driver"
@@ -79,7 +78,9 @@ func (u *c17UI) SetAutoComplete(complete func(string) string) {}
 
 func (rq c17Req) query() string {
 	q := url.Values{}
-	q.Set("si", strconv.Itoa(rq.SampleIndex))
+	if si := rq.siText(); si != "" {
+		q.Set("si", si)
+	}
 	if rq.Gran != "" {
 		q.Set("g", rq.Gran)
 	}
